@@ -16,13 +16,20 @@ CaseOf(e) ==
                            ec |-> e.ec, ir |-> e.ir, dcl |-> IF e.sh = "default" THEN e.dcl ELSE "na"]
       [] e.op = "time" -> [kind |-> "time", fn |-> e.fn, suf |-> e.suf, vm |-> e.vm]
       [] e.op = "section" -> [kind |-> "section", mode |-> e.mode, allow |-> e.allow]
+      [] e.op = "timenm" -> [kind |-> "timenm", fn |-> e.fn, suf |-> e.suf, mut |-> e.mut]
 InSpace(c) == CASE c.kind = "item" -> IsItemCase(c)
                 [] c.kind = "time" -> c.fn \in {"ms", "secs"} /\ c.suf \in Suffixes \cup {""} /\ c.vm \in Int
                 [] c.kind = "section" -> c \in SectionCases
+                [] c.kind = "timenm" -> c \in TimeNMCases
 
 FnOf(vc) == IF vc \in {"ms", "template_ms"} THEN "ms" ELSE "secs"
 TimeOK(e) == /\ Len(e.rms) = Len(e.vm) /\ "tex" \in SeqToSet(e.f)
              /\ \A i \in DOMAIN e.vm : e.rms[i] = ExpectedMs(FnOf(e.vc), e.suf, e.vm[i])
+(* VALUE relations are judged here, on the logged components of the returned colours (e.cc: one sequence of ints per     *)
+(* returned colour; e.kc: the components of a kivy colour in 1/1000), not by a flag of the driver:                       *)
+(* "a colour validator never returns components outside 0..255"                                                         *)
+ColourOK(cc) == Len(cc) > 0 /\ \A i \in DOMAIN cc : Len(cc[i]) = 3 /\ \A k \in DOMAIN cc[i] : cc[i][k] \in 0..255
+KivyOK(kc) == Len(kc) > 0 /\ \A i \in DOMAIN kc : Len(kc[i]) > 0 /\ \A k \in DOMAIN kc[i] : kc[i][k] \in 0..1000
 ItemOK(j, e) ==
     \/ e.o \in {"reject", "unclean"}                    \* rejecting is always allowed ("unclean" = an exception type that is not a
                                                         \* deliberate rejection: counted by the driver, not a violation of the statement)
@@ -32,23 +39,27 @@ ItemOK(j, e) ==
        /\ e.inr                                         \* declared numeric range, computed on the returned value(s)
        /\ SeqToSet(e.ety) \subseteq j.ety /\ SeqToSet(e.kty) \subseteq j.kty
        /\ (j.n >= 0 => e.n = j.n)                       \* normalisation keeps the elements
-       /\ j.rels \subseteq SeqToSet(e.f)                \* value relation (enum member, value kept, lower-cased, device object ...)
+       /\ (j.rels \ ValueRels) \subseteq SeqToSet(e.f)  \* value relation (enum member, value kept, lower-cased, device object ...)
+       /\ ("c255" \in j.rels => ColourOK(e.cc))         \* range and shape of the returned colour(s)
+       /\ ("k01" \in j.rels => KivyOK(e.kc))
        /\ (j.time /\ Len(e.vm) > 0 => TimeOK(e))        \* value * unit
 TimeLineOK(j, e) ==
     \/ e.o \in {"reject", "unclean"} /\ ~j.must
     \/ e.o = "accept" /\ e.rms = j.ms /\ e.tex
+TimeNMOK(j, e) == j.o = "reject" /\ e.o \in {"reject", "unclean"}     \* a near-miss time string is not a time: no value may come back
 SectionOK(j, e) ==
     \/ e.o \in {"reject", "unclean"}
     \/ e.o = "accept" /\ j.o = "accept" /\ \A x \in j.need : e[x]
 
 Step(e) ==
-    \/ /\ e.op \in {"item", "time", "section"}
+    \/ /\ e.op \in {"item", "time", "section", "timenm"}
        /\ LET c == CaseOf(e) IN
           /\ InSpace(c)
           /\ Pick(c)
           /\ CASE e.op = "item" -> ItemOK(verdict', e)
                [] e.op = "time" -> TimeLineOK(verdict', e)
                [] e.op = "section" -> SectionOK(verdict', e)
+               [] e.op = "timenm" -> TimeNMOK(verdict', e)
     \/ /\ e.op \in {"spec", "built"}                    \* "never modifies the spec" (deep copy before = spec after)
        /\ e.same
        /\ UNCHANGED vars
